@@ -337,6 +337,14 @@ class Node:
             )
 
         if new_data_id:
+            # Check this before anything is modified
+            for n in cur_nodes if has_clones and with_clones else (self,):
+                for sibling in n._parent._children:  # type: ignore
+                    if sibling is not n and sibling._data_id == new_data_id:
+                        raise UniqueConstraintError(
+                            "Node.data already exists in parent"
+                        )
+
             # data_id (and possibly data) changes: we have to update the map
             if has_clones:
                 if with_clones:
